@@ -1,17 +1,62 @@
 """C07 - estimation returns a feasible point that is a maximum of the stated likelihood."""
-CONTRACT_MODULES = ['c07_negative']
+CONTRACT_MODULES = ['c07_negative', 'c07c_optimization', 'c07c_biogeme']
 LEVEL = 'other'
-TRUSTED = ['pyvc', 'z3 5.1.0 / cvc5 1.0.3', 'OPT-SPEC: biogeme_optimization / scipy.optimize respect bounds, improve, stop at stationary points (assumed; sampled)']
-ASSUMPTIONS = ['A-CALLABLE: the likelihood callbacks are deterministic functions of their arguments', 'OPT-SPEC (external optimisers)']
+TRUSTED = ['pyvc', 'z3 5.1.0 / cvc5 1.0.3', 'OPT-SPEC: biogeme_optimization / scipy.optimize respect bounds, improve, stop at stationary points (assumed; sampled)',
+           'pyvc/libext/c07c_opt.py: opaque optimiser calls recorded in ghost state, LIBSPEC of FunctionToMinimize (set_variables / f_g / __init__), '
+           'algorithm table read from the AST; specs/c07c_specs.py: predicates over the ghost record',
+           'contracts/c07c_static.py: def-use analysis of estimate / quick_estimate (ast)']
+ASSUMPTIONS = ['A-CALLABLE: the likelihood callbacks are deterministic functions of their arguments', 'OPT-SPEC (external optimisers)',
+               'A-PARAM: the TOML-backed attributes of BIOGEME (optimization_algorithm, max_iterations, initial_radius, ...) are dynamic properties that return the stored value: read as plain fields',
+               'assumed contracts (verify=False): BIOGEME.is_model_complex and Expression.requires_draws (pure, boolean; they only select a message / the automatic Hessian proportion)',
+               'bio_newton / bio_bfgs: the parameter dict is not the same object as the bounds list or the list of names (a dict is not a list)',
+               'biogeme_optimization.bounds.Bounds(list) and scipy turn None into -/+ infinity themselves (inside the dependency)']
 EXPLANATION = ('Proved: the function handed to the optimisers is exactly minus the unscaled likelihood, with gradient and Hessian negated and requested only when needed. '
                'Feasibility, improvement, stationarity and cross-algorithm agreement are properties of external optimisers (assumed), sampled together with the final evaluation, '
-               'packaging and write-back by a bounded estimation harness on generated concave problems.')
-LEVEL_TEXT = 'Sign flips and derivative pass-through proved; optimiser behaviour assumed (dependency) with a bounded estimation stand-in.'
+               'packaging and write-back by a bounded estimation harness on generated concave problems. '
+               'Round 2 (c07c): the optimisation glue is under contract for all inputs: each of the eight wrappers of biogeme.optimization makes exactly one optimiser call '
+               'and hands over the caller\'s function object, starting point and bounds (None = absent; every other value, 0 and negative included, kept, in order), each '
+               'configured parameter from the parameter dict or its default, and returns the optimiser\'s result unchanged; scipy\'s objective is f_g of the function object at the '
+               'point supplied. BIOGEME.optimize selects the algorithm from the table by name (unknown name -> BiogemeError iff), builds the NegativeLikelihood from its own two '
+               'likelihood methods and the number of free parameters, starts from the given point or the current free values, hands over id_manager.bounds and the dict built by '
+               '_set_algorithm_parameters (one proved dict per algorithm name), and returns the algorithm\'s result. The data flow of estimate / quick_estimate between the optimiser '
+               'and the results object (one solution vector, final evaluation at it with scaled=False, results built from both, write-back to every formula) is decided statically on the AST.')
+LEVEL_TEXT = ('Sign flips and derivative pass-through proved; optimiser behaviour assumed (dependency) with a bounded estimation stand-in. '
+              'Hand-over of function, start, bounds and parameters through biogeme.optimization and BIOGEME.optimize proved for all inputs (ghost record of the opaque optimiser call); '
+              'estimate / quick_estimate data flow static.')
 LEVEL_NOTE = 'Trusted: pyvc, z3/cvc5, OPT-SPEC.'
 TECHNIQUE = 'contract-based deductive verification + bounded estimation stand-in (8 algorithms x bound configurations x starts)'
 DESIGN_REF = 'DESIGN.md section 3 / C07'
 
-REPLAYS = {'*': """
+_ESTIMATION_REPLAY = '''
+import subprocess, sys, json
+r = subprocess.run([sys.executable, '/verif/bounded/c07_estimation.py', 'quick', '0'], capture_output=True, text=True)
+out = json.loads(r.stdout.strip().splitlines()[-1])
+violated = bool(out['failures'])
+detail = json.dumps(out['failures'][:3])
+'''
+_HANDOVER_REPLAY = '''
+import subprocess, sys, json
+r = subprocess.run([sys.executable, '/verif/bounded/c07_handover.py'], capture_output=True, text=True)
+out = json.loads(r.stdout.strip().splitlines()[-1])
+violated = bool(out['failures'])
+detail = json.dumps(out['failures'][:3])
+'''
+try:
+    from contracts.c07c_static import TABLE as _T
+    _STATIC_REPLAYS = {f'C07:static:algorithms-table:{n}': _HANDOVER_REPLAY for n in list(_T) + ['no-other-name', 'never-written']}
+    for _m, _cs in (('estimate', ['starting-point-is-the-current-free-values', 'solution-is-the-first-component-of-the-optimiser-output',
+                                  'initial-likelihood-evaluated-before-the-optimisation', 'final-evaluation-at-the-solution-unscaled',
+                                  'only-the-hessian-may-be-replaced', 'results-built-from-the-solution-and-the-final-evaluation',
+                                  'returns-the-results-of-this-estimation', 'estimates-written-back-to-every-formula']),
+                    ('quick_estimate', ['starting-point-is-the-current-free-values', 'solution-is-the-first-component-of-the-optimiser-output',
+                                        'final-likelihood-at-the-solution-unscaled', 'results-built-from-the-solution-and-the-final-evaluation',
+                                        'returns-the-results-of-this-estimation'])):
+        for _c in _cs:
+            _STATIC_REPLAYS[f'C07:static:{_m}:{_c}'] = _ESTIMATION_REPLAY
+except ImportError:      # pragma: no cover
+    _STATIC_REPLAYS = {}
+
+REPLAYS = {**_STATIC_REPLAYS, '*': """
 import warnings; warnings.simplefilter('ignore')
 import numpy as np
 from biogeme.negative_likelihood import NegativeLikelihood
@@ -35,7 +80,12 @@ detail = f'f={f} fg={fg} fgh={fgh} calls={calls}'
 
 def extra(tier, seed):
     from pyvc.bounded import run_native
-    return [run_native('C07:bounded:bounds-handover', 'c07_handover.py', [],
+    from contracts.c07c_static import extras as static_extras
+    return static_extras(tier, seed) + [
+            run_native('C07:bounded:wrappers-handover', 'c07c_handover.py', ['all'],
+                       bound='8 wrappers x 7 bound lists (None / 0 / -0.0 / negative / positive / one- and two-sided) x parameter dicts (None, {}, each documented key alone '
+                             'with a non-default and with a zero / False value, all keys, unknown keys); underlying optimiser spied'),
+            run_native('C07:bounded:bounds-handover', 'c07_handover.py', [],
                        bound='4 bound-supporting algorithms x 6 bound lists mixing None / 0 / negative / positive / one- and two-sided entries; underlying optimiser spied'),
             run_native('C07:bounded:estimation', 'c07_estimation.py', [tier, str(seed)],
                        bound='see the harness bound string: generated concave logit problems x bound configurations x 3 starts x 8 algorithms', timeout=1500)]
